@@ -38,17 +38,21 @@ func genC09(t *rapid.T, pair *[2]uint8) SeqCase {
 	}
 	ops := genOps(t, m, len(c.Keys), c.Cfg, 6, 30, false)
 	for r := 0; r < rounds; r++ {
-		switch weighted(t, "what", []int{6, 1, 1}) {
+		switch w := weighted(t, "what", []int{6, 1, 1}); w {
 		case 0:
 			nb := pickBits("bits2")
 			if pair != nil {
 				nb = pair[1]
 			}
 			ops = append(ops, Op{K: opReBits, A: int(nb)})
-		case 1:
-			ops = append(ops, Op{K: opMismatch, A: 1, B: int(sizeChoices[rapid.IntRange(0, len(sizeChoices)-1).Draw(t, "wrongsize")])})
-		case 2:
-			ops = append(ops, Op{K: opMismatch, A: 2, B: int(sizeChoices[rapid.IntRange(0, len(sizeChoices)-1).Draw(t, "wrongsize")])})
+		case 1, 2:
+			op := Op{K: opMismatch, A: w, B: int(sizeChoices[rapid.IntRange(0, len(sizeChoices)-1).Draw(t, "wrongsize")])}
+			// In a third of the refused opens the bit size differs as well: a
+			// file-size mismatch must be refused whatever else was changed.
+			if weighted(t, "alsobits", []int{2, 1}) == 1 {
+				op.Key = int(pickBits("bits3"))
+			}
+			ops = append(ops, op)
 		}
 		ops = append(ops, genOps(t, m, len(c.Keys), c.Cfg, 0, 12, false)...)
 	}
@@ -56,7 +60,7 @@ func genC09(t *rapid.T, pair *[2]uint8) SeqCase {
 	return c
 }
 
-const c09Rule = "rapid-generated C01-style histories at a first index bit size (shared prefixes, removed keys, multi-file index), clean close, reopen with another bit size (translation), full read-back and iteration against the reference map, then more history under the new size; refused opens: reopen with another index / primary file-size limit must fail with ErrIndexWrongFileSize / ErrPrimaryWrongFileSize (errors.As) and a later open with the original settings must show exactly the reference map; thorough tier additionally walks all 289 ordered pairs of 8..24 once; " +
+const c09Rule = "rapid-generated C01-style histories at a first index bit size (shared prefixes, removed keys, multi-file index), clean close, reopen with another bit size (translation), full read-back and iteration against the reference map, then more history under the new size; refused opens: reopen with another index / primary file-size limit (in a third of them also with another bit size) must fail with ErrIndexWrongFileSize / ErrPrimaryWrongFileSize (errors.As) and a later open with the original settings must show exactly the reference map; thorough tier additionally walks all 289 ordered pairs of 8..24 once; " +
 	"non-trivial = a translation of >=6 keys of which >=2 share a bucket afterwards, from an index of >=2 files; distinct = distinct canonical JSON of the case. The crash clause is checked by the crash campaign of this check (see coverage.crash_*)."
 
 func c09Classes(c SeqCase, st SeqStats) []string {
@@ -66,6 +70,9 @@ func c09Classes(c SeqCase, st SeqStats) []string {
 	}
 	if st.Mismatches > 0 {
 		cl = append(cl, "refused-open")
+	}
+	if st.MismatchesWithBits > 0 {
+		cl = append(cl, "refused-open-with-other-bits")
 	}
 	for _, p := range st.BitPairs {
 		var a, b int
